@@ -48,5 +48,11 @@ CLAIMED = {
         design_ref="§4 C21, §3.4",
         note="break/continue outside loops and regions thrown away by the if/unless tags' own lax recovery are outside the no-false-alarm clause; must-report sets are the conservative ones; quick replays all accepted sequences and a 9k sample of rejected ones per alphabet",
     ),
+    "C03": dict(
+        technique="TLA+ exit automaton of a render under STRICT/WARN/LAX (ErrorModes.tla) and the block-parser automaton (BlockParser.tla) model-checked with TLC; every enumerated template rendered in the three modes; the mode relation judged by TLC on the recorded triples (Relations.tla!Modes)",
+        text="TLC checks LaxNeverRaises/WarnCountsSuppressed/OnlyWarnWarns/StrictRaisesFirstError/OnlyLiquidExits on every template of <=2 (thorough 3) top-level nodes over 4 node shapes x 7 render-time error kinds x 3 modes; the real status, output and warning count (sync+async) must equal the automaton's; every BlockParser token sequence (malformed expressions, unknown tags, orphaned inner tags, unbalanced/over-nested blocks) is parsed and rendered in the three modes and Relations.tla!Modes must accept the triple",
+        design_ref="§4 C03",
+        note="render-time error kinds are the seven listed in ErrorModes.tla; parse-time family bounded by length 4 (thorough 5); resource-limit errors are covered under C07/C08",
+    ),
 }
 NOT_APPLICABLE = {}
